@@ -7,7 +7,7 @@ machinery therefore never sees a stale result.  VERIF_NO_CACHE=1 disables the st
 """
 import os
 import time
-from . import layer_t, layer_i, layer_r, layer_g, layer_s, corpus
+from . import layer_t, layer_i, layer_r, layer_g, layer_s, layer_k, corpus
 from .common import tree_hash, cache_get, cache_put, Scratch, REPRS, log
 
 
@@ -144,4 +144,17 @@ def get_c11(tier, seed):
     r["wall_s"] = time.time() - t0
     r["cache_hit"] = False
     cache_put("layer_c11", key, r)
+    return r
+
+
+def get_k(tier="quick"):
+    key = tree_hash(("K", tier))
+    r = cache_get("layer_k", key)
+    if r is not None:
+        r["cache_hit"] = True
+        return r
+    with Scratch("vf-k-") as sc:
+        r = layer_k.run_layer_k(sc, tier, jobs=12)
+    r["cache_hit"] = False
+    cache_put("layer_k", key, r)
     return r
